@@ -238,8 +238,8 @@ class Extractor:
         if loops:
             body = self._splice_loops(body, loops, what)
         # R2/R4/R7: the ghost logs / trace are threaded through extra tracked parameters
-        for gname, gty in (("verif_log", "OutLog"), ("verif_in", "InLog"), ("verif_tr", "Trace")):
-            if f"Tracked({gname})" in body:
+        for gname, gty in (("verif_log", "OutLog"), ("verif_in", "InLog"), ("verif_tr", "Trace"), ("verif_ct", "CiteLog")):
+            if f"Tracked({gname})" in body or f"{gname}.note_" in body:
                 k = sig.rindex(")", 0, sig.index("->") if "->" in sig else len(sig))
                 inner = sig[sig.index("(") + 1:k].strip()
                 sep = "" if not inner or inner.endswith(",") else ", "
@@ -369,7 +369,10 @@ class Extractor:
         spans = self._call_spans(body, callee)
         for i, j in reversed(spans):
             k = body.index(";", j)
-            body = body[:k + 1] + " " + block + body[k + 1:]
+            # $1, $2 .. in the block stand for the text of the call's arguments (so a hint can speak about what was really passed)
+            args = [a.strip() for a in split_top(body[i + 1:j])]
+            blk = re.sub(r"\$(\d)", lambda m: args[int(m.group(1)) - 1] if int(m.group(1)) <= len(args) else "()", block)
+            body = body[:k + 1] + " " + blk + body[k + 1:]
         return body, len(spans)
 
     def _splice_loops(self, body: str, loops: Dict[int, str], what: str) -> str:
@@ -475,7 +478,7 @@ def expand(template: str, ex: Extractor) -> str:
                         if om.group(1) == "str":
                             opts["str"] += om.group(2).split()
                         else:
-                            callee, _, txt = om.group(2).partition("::")
+                            callee, _, txt = om.group(2).partition(" :: ")
                             opts[om.group(1)].append((callee.strip(), txt.strip()))
                     elif lm:
                         cur_loop = int(lm.group(1))
